@@ -3,6 +3,7 @@ import RbV.Model.LFMapping
 import RbV.Model.LFSortedCheck
 import RbV.Model.SampledSA
 import RbV.Model.SampleBuild
+import RbV.Lemmas.SortedBridge
 /-!
 # C05 — FM-index backward search returns exactly the pattern's occurrences
 
@@ -192,6 +193,44 @@ example : BSProp [3, 1, 4, 4, 1, 2, 1, 0] [7, 6, 4, 1, 5, 0, 3, 2] [3, 4, 1, 2, 
       (LF.occRef (LF.bwtOf [3, 1, 4, 4, 1, 2, 1, 0] [7, 6, 4, 1, 5, 0, 3, 2])) 8 [3, 4, 1, 2, 1]) :=
   backward_search_correct_decidable _ _ _ (by decide) (by decide) (by decide) (by decide)
 
+/-- **`backward_search` is correct on every suffix array in the sense of C03**: no sortedness hypothesis left.  For
+every non-empty text whose last symbol (the sentinel) is its smallest symbol and is smaller than all pattern symbols,
+every array with `IsSA t sa` (sorted under some consistent order of the sentinel occurrences, `RbV/Spec/SufOrder.lean`)
+and every non-empty pattern, the mirror model's result satisfies the property statement.  The bridge
+`IsSA t sa → LF.Sorted t sa a` is `RbV.SortedBridge.isSA_lfSorted`. -/
+theorem backward_search_correct_of_isSA (t sa pat : List Nat) (hp : pat ≠ []) (hne : t ≠ [])
+    (h : IsSA t sa)
+    (hmin : ∀ p, p < t.length → sentinelOf t ≤ t.getD p 0)
+    (hsent : ∀ a ∈ pat, t.getD (t.length - 1) 0 < a) :
+    BSProp t sa pat
+      (BSModel.backwardSearch (LF.lessRef (LF.bwtOf t sa)) (LF.occRef (LF.bwtOf t sa)) sa.length pat) :=
+  backward_search_correct t sa pat hp (List.length_pos_iff.mpr hne) hsent
+    (fun a ha => SortedBridge.isSA_lfSorted t sa hne h hmin a (Nat.ne_of_lt (hsent a ha)))
+
+/-- **`backward_search` is correct on every array accepted by C03's checker**: no sortedness hypothesis left.  For
+every non-empty text whose last symbol (the sentinel) is its smallest symbol and is smaller than all pattern symbols,
+every array `sa` with `checkSA t sa = true` (⇔ `IsSA t sa`, theorem `RbV.Thm.C03.checkSA_iff`) and every non-empty
+pattern, the mirror model's result satisfies the property statement -/
+theorem backward_search_correct_of_checkSA (t sa pat : List Nat) (hp : pat ≠ [])
+    (hc : checkSA t sa = true)
+    (hmin : ∀ p, p < t.length → sentinelOf t ≤ t.getD p 0)
+    (hsent : ∀ a ∈ pat, t.getD (t.length - 1) 0 < a) :
+    BSProp t sa pat
+      (BSModel.backwardSearch (LF.lessRef (LF.bwtOf t sa)) (LF.occRef (LF.bwtOf t sa)) sa.length pat) :=
+  backward_search_correct_of_isSA t sa pat hp (SortedBridge.checkSA_ne_nil t sa hc) (checkSA_isSA t sa hc) hmin hsent
+
+-- GATTACA$ / GTACA again, now from C03's acceptance function; every hypothesis is decided
+example : BSProp [3, 1, 4, 4, 1, 2, 1, 0] [7, 6, 4, 1, 5, 0, 3, 2] [3, 4, 1, 2, 1]
+    (BSModel.backwardSearch (LF.lessRef (LF.bwtOf [3, 1, 4, 4, 1, 2, 1, 0] [7, 6, 4, 1, 5, 0, 3, 2]))
+      (LF.occRef (LF.bwtOf [3, 1, 4, 4, 1, 2, 1, 0] [7, 6, 4, 1, 5, 0, 3, 2])) 8 [3, 4, 1, 2, 1]) :=
+  backward_search_correct_of_checkSA _ _ _ (by decide) (by decide) (by decide) (by decide)
+
+-- the same through `IsSA`, obtained from the checker
+example : BSProp [3, 1, 4, 4, 1, 2, 1, 0] [7, 6, 4, 1, 5, 0, 3, 2] [3, 4, 1, 2, 1]
+    (BSModel.backwardSearch (LF.lessRef (LF.bwtOf [3, 1, 4, 4, 1, 2, 1, 0] [7, 6, 4, 1, 5, 0, 3, 2]))
+      (LF.occRef (LF.bwtOf [3, 1, 4, 4, 1, 2, 1, 0] [7, 6, 4, 1, 5, 0, 3, 2])) 8 [3, 4, 1, 2, 1]) :=
+  backward_search_correct_of_isSA _ _ _ (by decide) (by decide) (checkSA_isSA _ _ (by decide)) (by decide) (by decide)
+
 /-- **positions resolved through a sampled suffix array**: the mirror model of `SampledSuffixArray::get` (LF walk to
 the next sampled row, or to a row whose BWT symbol is the sentinel, for which `sample` stores an extra entry) returns
 `sa[index]` for every row, every sampling rate `s` and every text with one or many sentinels, provided the array
@@ -233,6 +272,38 @@ theorem sampled_array_correct (t sa : List Nat) (s : Nat) (hs : 0 < s)
     (fun pos hpos hm => SampledModel.build_sample sa _ s _ hs sa.length pos hpos hm)
     (fun pos hpos hm hb => SampledModel.build_extra sa _ s _ sa.length pos hpos hm hb)
     index hi
+
+/-- the same for every array accepted by C03's checker (⇔ `IsSA t sa`), on texts whose sentinel is the smallest
+symbol: construction followed by `get` returns `sa[index]` for every row and every sampling rate `s ≥ 1` -/
+theorem sampled_array_correct_of_checkSA (t sa : List Nat) (s : Nat) (hs : 0 < s)
+    (hc : checkSA t sa = true)
+    (hmin : ∀ p, p < t.length → sentinelOf t ≤ t.getD p 0) (index : Nat) (hi : index < sa.length) :
+    SampledModel.get s (LF.bwtOf t sa) (t.getD (t.length - 1) 0) (LF.lessRef (LF.bwtOf t sa))
+      (LF.occRef (LF.bwtOf t sa))
+      (SampledModel.sampleGet (SampledModel.build sa (LF.bwtOf t sa) s (t.getD (t.length - 1) 0) sa.length).1)
+      (SampledModel.extraGet (SampledModel.build sa (LF.bwtOf t sa) s (t.getD (t.length - 1) 0) sa.length).2)
+      sa.length index = some (sa.getD index 0) :=
+  sampled_array_correct t sa s hs (SortedBridge.checkSA_sortedAllB t sa hc hmin) index hi
+
+/-- … and `get` alone, with the stored values as hypotheses -/
+theorem sampled_get_correct_of_checkSA (t sa : List Nat) (s : Nat) (sampleGet extraGet : Nat → Nat)
+    (hc : checkSA t sa = true)
+    (hmin : ∀ p, p < t.length → sentinelOf t ≤ t.getD p 0)
+    (hsample : ∀ pos, pos < sa.length → pos % s = 0 → sampleGet (pos / s) = sa.getD pos 0)
+    (hextra : ∀ pos, pos < sa.length → pos % s ≠ 0 →
+      (LF.bwtOf t sa).getD pos 0 = t.getD (t.length - 1) 0 → extraGet pos = sa.getD pos 0)
+    (index : Nat) (hi : index < sa.length) :
+    SampledModel.get s (LF.bwtOf t sa) (t.getD (t.length - 1) 0) (LF.lessRef (LF.bwtOf t sa))
+      (LF.occRef (LF.bwtOf t sa)) sampleGet extraGet sa.length index = some (sa.getD index 0) :=
+  sampled_get_correct t sa s sampleGet extraGet (SortedBridge.checkSA_sortedAllB t sa hc hmin) hsample hextra index hi
+
+-- two sequences "A$A$" as bytes, sampling rate 2, from C03's checker: every row gives `sa[row]`
+example : ∀ i, i < 4 → SampledModel.get 2 (LF.bwtOf [65, 36, 65, 36] [3, 1, 2, 0]) 36
+      (LF.lessRef (LF.bwtOf [65, 36, 65, 36] [3, 1, 2, 0])) (LF.occRef (LF.bwtOf [65, 36, 65, 36] [3, 1, 2, 0]))
+      (SampledModel.sampleGet (SampledModel.build [3, 1, 2, 0] (LF.bwtOf [65, 36, 65, 36] [3, 1, 2, 0]) 2 36 4).1)
+      (SampledModel.extraGet (SampledModel.build [3, 1, 2, 0] (LF.bwtOf [65, 36, 65, 36] [3, 1, 2, 0]) 2 36 4).2)
+      4 i = some ([3, 1, 2, 0].getD i 0) :=
+  fun i hi => sampled_array_correct_of_checkSA [65, 36, 65, 36] [3, 1, 2, 0] 2 (by decide) (by decide) (by decide) i hi
 
 -- two sequences "A$A$" (A=1, $=0), sampling rate 2: row 1 is not sampled and its BWT symbol is the sentinel → extra row
 example : SampledModel.build [3, 1, 2, 0] (LF.bwtOf [1, 0, 1, 0] [3, 1, 2, 0]) 2 0 4 = ([3, 2], [(3, 0)]) := by decide
